@@ -3,7 +3,7 @@
    MarksNI_Eval.ni_all. *)
 From Coq Require Import QArith.
 From HclV Require Import Base.Prelude Cty.Values Cty.Convert Cty.Ops Eval.Impl
-     Eval.MarksNI Eval.MarksNI_Ops Eval.MarksNI_Index Eval.MarksNI_Funcs Eval.MarksNI_Eval.
+     Eval.MarksNI Eval.MarksNI_Ops Eval.MarksNI_Index Eval.MarksNI_Funcs Eval.MarksNI_Steps Eval.MarksNI_Eval.
 Open Scope Z_scope.
 
 Lemma equals_wf : forall f a b r, equals f a b = OOk r -> wf r.
@@ -83,9 +83,9 @@ Proof.
          end; try reflexivity; apply finish_unknown_wf.
 Qed.
 
-Lemma cond_pick_wf rt mk cds bv bds nc : wf bv -> wf (fst (cond_pick rt mk cds bv bds nc)).
+Lemma cond_pick_wf rt mk cds bv bds nc o : wf bv -> wf (fst (cond_pick rt mk cds bv bds nc o)).
 Proof.
-  intro W. unfold cond_pick. destruct nc; [|apply wf_with_marks, W].
+  intro W. unfold cond_pick. cbv zeta. destruct nc; [|apply wf_with_marks, W].
   destruct (conv bv rt) eqn:C; cbn [fst]; try reflexivity; apply wf_with_marks; [|reflexivity].
   eapply conv_wf; eassumption.
 Qed.
@@ -125,6 +125,47 @@ Proof.
     intros r E; injection E as <-; reflexivity.
 Qed.
 
+Lemma splat_tail_wf ev c sv0 ds :
+  (forall x, wf x -> wf (fst (ev c (Some x)))) -> wf sv0 -> wf (fst (splat_tail ev c sv0 ds)).
+Proof.
+  intros Hev W0. unfold splat_tail.
+  destruct (has_errors ds); [reflexivity|].
+  destruct (is_null sv0).
+  { destruct (negb (is_seq_ty (type_of sv0))); cbn [fst]; [apply wf_with_same_marks|]; reflexivity. }
+  destruct (ty_eqb (type_of sv0) TDyn); [apply wf_with_same_marks; reflexivity|].
+  cbv zeta.
+  remember (if negb (is_seq_ty (type_of sv0)) then with_same_marks (VTuple [sv0]) sv0 else sv0) as sv eqn:Hsv.
+  assert (Wsv : wf sv).
+  { subst sv. destruct (negb (is_seq_ty (type_of sv0))); [|exact W0].
+    apply wf_with_same_marks. unfold wf in *. cbn [wfb forallb]. rewrite W0. reflexivity. }
+  clear Hsv.
+  match goal with |- context [if negb (is_known sv) then ?A else ?B] => destruct (negb (is_known sv)) end.
+  { match goal with |- context [let '(rt, tds) := ?R in _] => destruct R as [rt tds] end.
+    cbn [fst]. apply wf_with_same_marks.
+    repeat match goal with
+           | |- context [match ?y with _ => _ end] => destruct y
+           | |- context [if ?y then _ else _] => destruct y
+           end; try reflexivity; apply finish_unknown_wf. }
+  destruct (wf_unmark _ Wsv) as [_ Wsu]. destruct (unmark sv) as [su sm]. cbn [fst] in Wsu.
+  assert (Wv : forallb wfb (map fst (map (fun kv => ev c (Some (snd kv))) (elements su))) = true).
+  { pose proof (elements_wf _ Wsu) as We. induction We as [|p r [_ Wp] _ IH]; cbn [map forallb]; [reflexivity|].
+    rewrite (Hev _ Wp), IH. reflexivity. }
+  match goal with |- context [match ?U with None => _ | Some _ => _ end] => destruct U as [[|]|] end;
+    try reflexivity.
+  - apply wf_with_marks. reflexivity.
+  - match goal with |- context [if negb ?B then _ else _] => destruct (negb B) end.
+    + apply wf_with_marks. reflexivity.
+    + destruct (type_of sv); try (apply wf_with_marks; exact Wv).
+      * destruct (map fst _) as [|v0 rest] eqn:Mv.
+        -- match goal with |- context [let '(rt, tds) := ?R in _] => destruct R as [rt tds] end.
+           apply wf_with_marks. reflexivity.
+        -- destruct (forallb _ rest); [apply wf_with_marks; exact Wv|reflexivity].
+      * destruct (map fst _) as [|v0 rest] eqn:Mv.
+        -- match goal with |- context [let '(rt, tds) := ?R in _] => destruct R as [rt tds] end.
+           apply wf_with_marks. reflexivity.
+        -- destruct (forallb _ rest); [apply wf_with_marks; exact Wv|reflexivity].
+Qed.
+
 Section WF.
   Variable m : Z.
   Variable idx : val -> val -> val * list diag.
@@ -132,6 +173,7 @@ Section WF.
   Hypothesis Cx_wf : forall c, Cx c -> wf_ctx c.
   Hypothesis Cx_funcs : forall c, Cx c ->
     forall fr fs name f, In fr c -> ffuncs fr = Some fs -> assoc_get name fs = Some f -> fn_wf f.
+  Hypothesis Cx_child : forall c vars, Cx c -> (forall k v, In (k, v) vars -> wf v) -> Cx (child_ctx c vars).
   Hypothesis idx_wf : forall c k, wf c -> wf k -> wf (fst (idx c k)).
   Notation frag := (in_fragment m idx Cx).
 
@@ -185,28 +227,67 @@ Section WF.
       destruct (fold_left join_step l (inl ([], tm, d))) as [[[b am] dd]|[r dd]] eqn:Fo; cbn [join_fin] in E.
       + injection E as <- _. apply wf_with_marks. reflexivity.
       + injection E as <- _. eapply join_fold_wf; [|exact Fo]. intros r0 d0 E0. discriminate E0.
-    - (* call *) rewrite eval_call_unfold in E.
-      destruct (lookup_fn c name false) as [[fnv|] b] eqn:L; [|destruct b; injection E as <- _; reflexivity].
-      destruct (lookup_fn_in _ _ _ _ _ L) as (fr & fs & I1 & I2 & I3).
-      pose proof (Cx_funcs c C fr fs name fnv I1 I2 I3) as Hfw.
-      unfold call_tail in E.
-      destruct (length args <? length (f_params fnv))%nat; [injection E as <- _; reflexivity|].
-      destruct (_ && _); [injection E as <- _; reflexivity|].
-      assert (FW : forall l i st, Forall frag l -> Forall wf (fst st) ->
-                  Forall wf (fst (fold_left (call_step (eval_with idx f c a) fnv) (combine (seq i (length l)) l) st))).
-      { induction l as [|x r IHl]; intros i st Fl Ws; cbn [length seq combine fold_left]; [exact Ws|].
-        inversion Fl as [|? ? Fx Fr]; subst. apply IHl; [exact Fr|].
-        destruct st as [vals d0]. unfold call_step. cbn [fst snd].
-        destruct (eval_with idx f c a x) as [y dy] eqn:A.
-        assert (Wy : wf y) by (eapply IH; eassumption).
-        destruct (param_for fnv i); [destruct (conv y (p_ty f0)) eqn:Cv|]; cbn [fst];
-          apply Forall_app; split; try exact Ws; constructor; try constructor; try exact Wy.
-        eapply conv_wf; eassumption. }
-      specialize (FW args 0%nat ([], []) H (Forall_nil _)).
-      destruct (fold_left _ _ _) as [av d]. cbn [fst] in FW.
-      destruct (has_errors d); [injection E as <- _; reflexivity|].
-      destruct (has_unsupported d); [injection E as <- _; reflexivity|].
-      destruct (fn_call fnv av) eqn:Fc; injection E as <- _; try reflexivity. eapply Hfw; eassumption.
+    - (* call *)
+      assert (TW : forall fnv l d0 emk v' ds', fn_wf fnv -> Forall frag l ->
+                 call_tail (eval_with idx f c a) name fnv l d0 emk = (v', ds') -> wf v').
+      { intros fnv l d0 emk v' ds' Hfw Fl E0. unfold call_tail in E0.
+        destruct (length l <? length (f_params fnv))%nat; [injection E0 as <- _; reflexivity|].
+        destruct (_ && _); [injection E0 as <- _; reflexivity|].
+        assert (FW : forall l0 i st, Forall frag l0 -> Forall wf (fst st) ->
+                    Forall wf (fst (fold_left (call_step (eval_with idx f c a) fnv) (combine (seq i (length l0)) l0) st))).
+        { induction l0 as [|x r IHl]; intros i st Fl0 Ws; cbn [length seq combine fold_left]; [exact Ws|].
+          inversion Fl0 as [|? ? Fx Fr]; subst. apply IHl; [exact Fr|].
+          destruct st as [vals d1]. unfold call_step. cbn [fst snd].
+          destruct (eval_with idx f c a x) as [y dy] eqn:A.
+          assert (Wy : wf y) by (eapply IH; eassumption).
+          destruct (param_for fnv i); [destruct (conv y (p_ty f0)) eqn:Cv|]; cbn [fst];
+            apply Forall_app; split; try exact Ws; constructor; try constructor; try exact Wy.
+          eapply conv_wf; eassumption. }
+        specialize (FW l 0%nat ([], d0) Fl (Forall_nil _)).
+        destruct (fold_left _ _ _) as [av d]. cbn [fst] in FW.
+        destruct (has_errors d); [injection E0 as <- _; reflexivity|].
+        destruct (has_unsupported d); [injection E0 as <- _; reflexivity|].
+        destruct (fn_call fnv av) eqn:Fc; injection E0 as <- _; try reflexivity.
+        apply wf_with_marks. eapply Hfw; eassumption. }
+      destruct expand.
+      + rewrite eval_call_unfold_x in E.
+        destruct (lookup_fn c name false) as [[fnv|] b] eqn:L; [|destruct b; injection E as <- _; reflexivity].
+        destruct (lookup_fn_in _ _ _ _ _ L) as (fr & fs & I1 & I2 & I3).
+        pose proof (Cx_funcs c C fr fs name fnv I1 I2 I3) as Hfw.
+        unfold call_expanded in E.
+        destruct (rev args) as [|last init_rev] eqn:R; [injection E as <- _; reflexivity|].
+        assert (Ea : args = rev init_rev ++ [last]) by (rewrite <- (rev_involutive args), R; reflexivity).
+        assert (Fl : frag last /\ Forall frag (rev init_rev)).
+        { rewrite Ea in H. apply Forall_app in H as [F1 F2]. inversion F2; subst. split; assumption. }
+        destruct Fl as [Fl Fi].
+        destruct (eval_with idx f c a last) as [xv xd] eqn:A.
+        assert (Wx : wf xv) by (eapply (IH c a last); eassumption).
+        destruct (has_errors xd); [injection E as <- _; reflexivity|].
+        assert (Seq : forall r0,
+                  (if is_null xv then inr (dyn_val, xd ++ [derr S_InvalidExpand []])
+                   else if negb (is_known xv) then inr (with_same_marks dyn_val xv, xd)
+                   else let '(xu, xm) := unmark xv in
+                        inl (rev init_rev ++ map (fun kv => ELit (with_marks (snd kv) xm)) (elements xu), xd,
+                             match elements xu with [] => xm | _ :: _ => [] end)) = r0 ->
+                  match r0 with inr r => r | inl (args', ds0, emk) => call_tail (eval_with idx f c a) name fnv args' ds0 emk end = (v, ds) ->
+                  wf v).
+        { intros r0 <- E0. destruct (is_null xv); [injection E0 as <- _; reflexivity|].
+          destruct (negb (is_known xv)); [injection E0 as <- _; apply wf_with_same_marks; reflexivity|].
+          destruct (wf_unmark _ Wx) as [_ Wu]. destruct (unmark xv) as [xu xm]. cbn [fst] in Wu.
+          assert (FL : forall l0, Forall wf_pair l0 ->
+                    Forall frag (map (fun kv : val * val => ELit (with_marks (snd kv) xm)) l0)).
+          { induction 1 as [|p r [_ Wp] _ IHe]; cbn [map]; constructor; [|exact IHe].
+            apply F_lit. apply wf_with_marks, Wp. }
+          eapply TW; [exact Hfw| |exact E0]. apply Forall_app. split; [exact Fi|].
+          apply FL, elements_wf, Wu. }
+        destruct (type_of xv); try (injection E as <- _; reflexivity);
+          try (eapply Seq; [reflexivity|exact E]).
+        destruct (is_null xv); injection E as <- _; [reflexivity|apply wf_with_same_marks; reflexivity].
+      + rewrite eval_call_unfold in E.
+        destruct (lookup_fn c name false) as [[fnv|] b] eqn:L; [|destruct b; injection E as <- _; reflexivity].
+        destruct (lookup_fn_in _ _ _ _ _ L) as (fr & fs & I1 & I2 & I3).
+        pose proof (Cx_funcs c C fr fs name fnv I1 I2 I3) as Hfw.
+        eapply TW; [exact Hfw|exact H|exact E].
     - (* cond *) rewrite eval_cond_unfold in E.
       destruct (eval_with idx f c a te) as [tv td] eqn:A. destruct (eval_with idx f c a fe) as [fv fd] eqn:B.
       destruct (has_unsupported td || has_unsupported fd); [injection E as <- _; reflexivity|].
@@ -215,6 +296,86 @@ Section WF.
       pose proof (cond_tail_wf rt tc fc cv cd tv td fv fd) as X. rewrite E in X. apply X.
       + eapply (IH c a te); eassumption.
       + eapply (IH c a fe); eassumption.
+    - (* for *) rewrite eval_for_unfold' in E.
+      destruct (eval_with idx f c a coll) as [cv0 d0] eqn:A. unfold for_tail in E.
+      assert (Wc : wf cv0) by (eapply (IH c a coll); eassumption).
+      destruct (is_null cv0); [injection E as <- _; reflexivity|].
+      destruct (ty_eqb (type_of cv0) TDyn); [injection E as <- _; apply wf_with_same_marks; reflexivity|].
+      destruct (wf_unmark _ Wc) as [_ Wu]. destruct (unmark cv0) as [cv cmk]. cbn [fst] in Wu.
+      destruct (negb (can_iterate cv)); [injection E as <- _; reflexivity|].
+      destruct (for_probe _ c kv vv cond d0) as [[cm dp]|[r dr]] eqn:P.
+      2:{ injection E as <- _. unfold for_probe in P. destruct cond as [ce|]; [|discriminate P].
+          destruct (eval_with idx f _ a ce) as [q qd]. repeat bm P; try discriminate P; injection P as <- _; reflexivity. }
+      destruct (negb (is_known cv)); [injection E as <- _; apply wf_with_marks; reflexivity|].
+      pose proof (elements_wf _ Wu) as We.
+      assert (CC : forall p, wf_pair p -> Cx (for_bind c kv vv (fst p) (snd p))).
+      { intros p [Wk Wv]. apply Cx_child; [exact C|apply for_bind_vars_wf; assumption]. }
+      destruct key as [ke|].
+      + destruct (H ke eq_refl) as [Fke _].
+        assert (FW : forall l st, Forall wf_pair l ->
+                  forallb (fun p => wfb (snd p)) (fst (fst (fst (fst st)))) = true ->
+                  forallb (fun p => forallb wfb (snd p)) (snd (fst (fst (fst st)))) = true ->
+                  forallb (fun p => wfb (snd p)) (fst (fst (fst (fst (fold_left (foro_step (fun cc e => eval_with idx f cc a e) c kv vv cond ke vl group) l st))))) = true /\
+                  forallb (fun p => forallb wfb (snd p)) (snd (fst (fst (fst (fold_left (foro_step (fun cc e => eval_with idx f cc a e) c kv vv cond ke vl group) l st))))) = true).
+        { induction l as [|p r IHl]; intros st Wl Wv Wg; cbn [fold_left]; [split; assumption|].
+          inversion Wl as [|? ? Wp Wr]; subst. specialize (CC p Wp).
+          assert (St : forallb (fun p0 => wfb (snd p0)) (fst (fst (fst (fst (foro_step (fun cc e => eval_with idx f cc a e) c kv vv cond ke vl group st p))))) = true /\
+                       forallb (fun p0 => forallb wfb (snd p0)) (snd (fst (fst (fst (foro_step (fun cc e => eval_with idx f cc a e) c kv vv cond ke vl group st p))))) = true).
+          { rewrite foro_step_eq. destruct st as [[[[vals groups] mks] known] dss]. cbn [fst snd] in Wv, Wg. cbv zeta.
+            destruct (foro_cond _ _ cond mks known dss) as [[mk' ds']|[[mk' kn'] ds']]; [|split; assumption].
+            unfold foro_body. destruct (eval_with idx f _ a ke) as [kr kd].
+            destruct (is_null kr); [split; assumption|]. destruct (negb (is_known kr)); [split; assumption|].
+            destruct (conv kr TStr) as [kc| |]; try (split; assumption).
+            destruct (fst (unmark kc)) as [ks| | | | | | | | | |]; try (split; assumption).
+            destruct (eval_with idx f _ a vl) as [x xd] eqn:B.
+            assert (Wx : wf x) by (eapply (IH _ a vl); [exact CC|exact W|assumption|exact B]).
+            destruct group; [|destruct (assoc_get ks vals)]; cbn [fst snd]; try (split; assumption).
+            - split; [exact Wv|].
+              assert (Wo : forallb wfb (match assoc_get ks groups with Some l0 => l0 | None => [] end ++ [x]) = true).
+              { rewrite forallb_app. cbn [forallb]. rewrite Wx, andb_true_r.
+                destruct (assoc_get ks groups) as [l0|] eqn:G; [|reflexivity].
+                clear -G Wg. induction groups as [|[k0 y] t IHt]; cbn [assoc_get forallb snd] in *; [discriminate|].
+                apply andb_true_iff in Wg as [A0 B0]. destruct (str_eqb ks k0); [injection G as <-; exact A0|auto]. }
+              remember (match assoc_get ks groups with Some l0 => l0 | None => [] end ++ [x]) as nw eqn:Hnw.
+              clear Hnw. clear -Wo Wg. induction groups as [|[k0 y] t IHt]; cbn [assoc_set forallb snd] in *.
+              + rewrite Wo. reflexivity.
+              + apply andb_true_iff in Wg as [A0 B0]. destruct (str_eqb ks k0); cbn [forallb snd].
+                * rewrite Wo, B0. reflexivity.
+                * destruct (str_ltb ks k0); cbn [forallb snd]; rewrite ?Wo, ?A0, ?B0; try reflexivity.
+                  rewrite (IHt B0). reflexivity.
+            - split; [apply wf_assoc_set; assumption|exact Wg]. }
+          destruct St as [St1 St2]. apply IHl; assumption. }
+        specialize (FW (elements cv) ([], [], [cmk], true, dp) We eq_refl eq_refl).
+        destruct (fold_left _ (elements cv) _) as [[[[vals groups] mks] known] dd]. cbn [fst snd] in FW.
+        destruct FW as [FW1 FW2]. cbn [for_fin_o] in E.
+        destruct (negb known); injection E as <- _; apply wf_with_marks; [reflexivity|].
+        unfold wf. cbn [wfb]. destruct group; [|exact FW1].
+        clear -FW2. induction groups as [|[k0 y] t IHt]; cbn [map forallb snd fst wfb] in *; [reflexivity|].
+        apply andb_true_iff in FW2 as [A0 B0]. rewrite A0, IHt; auto.
+      + assert (FW : forall l st, Forall wf_pair l -> forallb wfb (fst (fst (fst st))) = true ->
+                  forallb wfb (fst (fst (fst (fold_left (forl_step (fun cc e => eval_with idx f cc a e) c kv vv cond vl) l st)))) = true).
+        { induction l as [|p r IHl]; intros st Wl Wv; cbn [fold_left]; [exact Wv|].
+          inversion Wl as [|? ? Wp Wr]; subst. specialize (CC p Wp). apply IHl; [exact Wr|].
+          destruct st as [[[vals mks] known] dss]. unfold forl_step. cbn [fst snd] in *.
+          assert (Bd : forall (mk' : list marks) (ds' : list diag), forallb wfb (fst (fst (fst (let '(v, vds) := eval_with idx f (for_bind c kv vv (fst p) (snd p)) a vl in
+                                                                     (vals ++ [v], mk', known, ds' ++ vds))))) = true).
+          { intros. destruct (eval_with idx f _ a vl) as [x xd] eqn:B. cbn [fst].
+            rewrite forallb_app, Wv. cbn [forallb]. rewrite andb_true_r.
+            eapply (IH _ a vl); [exact CC|exact W|assumption|exact B]. }
+          destruct cond as [ce|]; [|apply Bd].
+          destruct (eval_with idx f _ a ce) as [inc cds].
+          destruct (is_null inc); [exact Wv|]. destruct (negb (is_known inc)); [exact Wv|].
+          destruct (conv inc TBool) as [b| |]; try exact Wv.
+          destruct (fst (unmark b)) as [| |[|]| | | | | | | |]; try apply Bd. exact Wv. }
+        specialize (FW (elements cv) ([], [cmk], true, dp) We eq_refl).
+        destruct (fold_left _ (elements cv) _) as [[[vals mks] known] dd]. cbn [fst] in FW. cbn [for_fin_l] in E.
+        destruct (negb known); injection E as <- _; apply wf_with_marks; [reflexivity|exact FW].
+    - (* splat *) rewrite eval_splat_unfold in E.
+      destruct (eval_with idx f c a src) as [sv0 d0] eqn:A.
+      pose proof (splat_tail_wf (fun cc an => eval_with idx f cc an each) c sv0 d0) as X. rewrite E in X. apply X.
+      + intros x Wx. destruct (eval_with idx f c (Some x) each) as [y dy] eqn:B. cbn [fst].
+        eapply (IH c (Some x) each); [exact C|exact Wx|assumption|exact B].
+      + eapply (IH c a src); eassumption.
     - (* obj *) rewrite eval_obj_unfold in E.
       assert (FW : forall l st, Forall (fun it => frag (fst it) /\ frag (snd it)) l ->
                   forallb (fun p => wfb (snd p)) (fst (fst (fst st))) = true ->
